@@ -27,7 +27,7 @@ MODEL_COVERAGE = "tokfmt.tokfmt (TokFmt.lean, spacing table regenerated)"
 REPS = [("1.5", "FLOAT_CONST"), ("0x1p3", "HEX_FLOAT_CONST"), ("0x1f", "INT_CONST_HEX"), ("0b101", "INT_CONST_BIN"), ("017", "INT_CONST_OCT"),
         ("42", "INT_CONST_DEC"), ("'ab'", "INT_CONST_CHAR"), ("'c'", "CHAR_CONST"), ("L'c'", "WCHAR_CONST"), ("u8'c'", "U8CHAR_CONST"),
         ("u'c'", "U16CHAR_CONST"), ("U'c'", "U32CHAR_CONST"), ('"s"', "STRING_LITERAL"), ('L"s"', "WSTRING_LITERAL"), ('u8"s"', "U8STRING_LITERAL"),
-        ('u"s"', "U16STRING_LITERAL"), ('U"s"', "U32STRING_LITERAL"), ("foo", "NAME"), ("_x", "NAME"), ("int", "int"), ("operator", "operator"),
+        ('u"s"', "U16STRING_LITERAL"), ('U"s"', "U32STRING_LITERAL"), ("foo", "NAME"), ("_x", "NAME"), ("~", "NAME"), ("~T", "NAME"), ("~0u", "NAME"), ("int", "int"), ("operator", "operator"),
         ("/", "DIVIDE"), ("...", "ELLIPSIS"), ("[[", "DBL_LBRACKET"), ("]]", "DBL_RBRACKET"), ("::", "DBL_COLON"), ("&&", "DBL_AMP"),
         ("||", "DBL_PIPE"), ("->", "ARROW"), ("<<", "SHIFT_LEFT")] + [(c, c) for c in PlyLexer.literals if c not in "\\'"]
 
